@@ -9,7 +9,9 @@ RULE = ('one input = (label, dt, values) saved with eqsig.save_signal (Signal an
         'is called on it and its values/dt/label/npts/type are compared EXACTLY (tolerance 0: decimal parsing, nearest-binary64 rounding and the product with m are modelled bit for bit) with the model reader, '
         'and the property predicate (npts, dt to 4 decimals, values to 6 decimals times m, label, type) is evaluated on the implementation outputs themselves. '
         'values: dyadic ties of the 6th decimal ((2k+1)/128), decimal near-ties, tiny magnitudes (1e-9..1e-5, both signs, -0.0), up to 1e18, slices of the shipped record, integer arrays; 1..400 (quick) / 1500 (thorough) samples, plus records of exactly 1000 and 2000 (thorough: 3000) samples (an 8-sample pattern repeated); '
-        'dt: 1e-4..100 log-uniform, the usual 0.01/0.005/0.02, dyadic ties of the 4th decimal (2^-5, 3*2^-5), dt >= 1 (1.5, 12.25, 100, Python ints); labels: printable ASCII with spaces, leading/trailing blanks, empty, "#", ",", quotes; '
+        'dt: 1e-4..100 log-uniform, the usual 0.01/0.005/0.02, dyadic ties of the 4th decimal (2^-5, 3*2^-5), dt >= 1 (1.5, 12.25, 100, Python ints); labels: printable ASCII with spaces, leading/trailing blanks, empty, "#", ",", quotes, and (about 1 in 8, plus one fixed corpus record) labels with non-ASCII characters '
+        '("D\u00fczce 1999 - G\u00f6lc\u00fck", Greek, CJK, accented Latin; no unicode line-break or space characters), compared as their UTF-8 bytes: file text and loaded label byte for byte against the byte model; '
+        'the load factor of load_sig is given positionally (load_sig(ffp, m)) in every other call and by keyword in the others, load_asig(ffp, load_label, m) positionally in 1 of 3 calls; '
         'm in {omitted, 1, 2, 0.5, -1, 9.81, 0.1, 1e-3, 100, int 3, random}; hand-made variants of saved files (trailing newline, blank lines, padded values, extra column, comments, exponent notation = the shipped test file) exercise the reader model alone; '
         'non-trivial = at least one value is not an integer multiple of 1e-6 or dt is not a multiple of 1e-4 or m != 1 or the label is not the default')
 TRUSTED = [
@@ -18,17 +20,27 @@ TRUSTED = [
     'its oracles (str.splitlines / str.split / float / binary64 product = the model readers; np.genfromtxt = any function with the stated contract) are tied by the correspondence only',
     'hand-written model coq/lib/DecFmt.v (printf %.df of an exact binary value with ties-to-even, decimal parser, nearest-binary64 rounding) and coq/model/M_loader.v; tie = byte-exact / bit-exact correspondence of this run (model/K_C16.v)',
     'np.genfromtxt is modelled (skip one line, names line, column 0 of each non-blank line through float()), not verified; CPython float formatting/parsing is assumed correctly rounded and is measured by the same correspondence',
-    'binary64 overflow/NaN/inf are outside the model and outside every generator; labels are printable ASCII (no line-break characters)',
+    'binary64 overflow/NaN/inf are outside the model and outside every generator; labels are printable ASCII or non-ASCII characters >= U+00A0 shipped as UTF-8 bytes '
+    '(a Coq string is a byte sequence; the platform text encoding of the run is UTF-8), no line-break characters (ASCII or unicode)',
     'Python harness',
 ]
 
 OKCH = set(range(0x20, 0x7f)) | {9, 10}
+# characters that str.splitlines()/str.split() treat specially beyond ASCII, or that have no UTF-8 form: never shipped
+BADCH = {0x85, 0x2028, 0x2029, 0xfeff}
 
 
 def cstr(s):
-    """Coq string literal (raw bytes; only printable ASCII, tab and newline are ever emitted)"""
+    """Coq string literal. A Coq string is a sequence of BYTES (checked: String.length "D\u00fczce" = 6) and the generated .v files are
+    written as UTF-8, so a non-ASCII character (>= U+00A0, not a unicode line break / space / surrogate) is shipped as its UTF-8
+    bytes: the byte model of the file (M_loader: text = list of bytes, breaks and blanks only below 0x80) then sees exactly the bytes
+    that save_values_and_dt puts on disk, and a loaded label is compared as the UTF-8 bytes of the str the loader returned.
+    Below U+00A0 only printable ASCII, tab and newline are ever emitted"""
     for ch in s:
-        if ord(ch) not in OKCH:
+        o = ord(ch)
+        if o in OKCH:
+            continue
+        if o < 0xa0 or o in BADCH or 0xd800 <= o <= 0xdfff or ch.isspace():
             raise ValueError('character %r cannot be shipped in a Coq string literal' % ch)
     return '"' + s.replace('"', '""') + '"%string'
 
@@ -37,10 +49,21 @@ LABEL_POOL = ['m1', 'test-motion', 'my record 01', ' leading', 'trailing  ', '',
               'ChiChi 1999 N-S (corrected)', '0.010000', '-', 'label with   several   blanks']
 
 
+# labels with characters outside ASCII (station / event names): stored by save_values_and_dt in the platform text encoding (UTF-8)
+NONASCII_POOL = ['D\u00fczce 1999 - G\u00f6lc\u00fck', 'M\u00e9xico 1985 (SCT)', 'G\u00f6lc\u00fck stn (M\u00e9xico ref)', '\u00fc', 'Valpara\u00edso, Vi\u00f1a del Mar',
+                 'Chi-Chi \u96c6\u96c6 TCU068', '\u039a\u03b1\u03bb\u03b1\u03bc\u03ac\u03c4\u03b1 1986', 'Kocaeli \u0130zmit', 'caf\u00e9 \u00b1 5\u00b0', ' \u00e9', '\u00e7 #1, \u00e7 #2']
+NONASCII_CH = '\u00fc\u00f6\u00e9\u00e7\u00f1\u00e8\u00e0\u00df\u00b0\u00b1\u00bf\u00d6\u00dc\u03a9\u03b1\u0130\u0131\u96c6'
+
+
 def gen_label(rng):
     r = rng.random()
     if r < 0.55:
         return rng.choice(LABEL_POOL)
+    if r < 0.67:
+        if rng.random() < 0.6:
+            return rng.choice(NONASCII_POOL)
+        n = rng.randint(1, 20)
+        return ''.join(rng.choice(NONASCII_CH) if rng.random() < 0.3 else chr(rng.choice([32, 32] + list(range(33, 127)))) for _ in range(n))
     n = rng.randint(1, 30)
     return ''.join(chr(rng.choice([32, 32, 32] + list(range(33, 127)))) for _ in range(n))
 
@@ -127,6 +150,7 @@ class Ctx:
         self.cases = []
         self.long_text, self.long_load = [], []
         self.errs, self.nerr = {}, {}
+        self.npos = 0
 
     def path(self):
         self.k += 1
@@ -141,7 +165,7 @@ def observe(ctx, ffp, text, saved, label, dt, vals, entry, astype, m, want_label
     import eqsig
     from eqsig import loader
     rep = ctx.rep
-    kw = {}
+    kw, pos = {}, ()
     if entry == 0:
         site, fn = 'load_values_and_dt', loader.load_values_and_dt
     elif entry == 1:
@@ -151,15 +175,25 @@ def observe(ctx, ffp, text, saved, label, dt, vals, entry, astype, m, want_label
     elif entry == 2:
         site, fn = 'load_sig[m]', loader.load_sig
         if m is not None:
-            kw['m'] = m
+            ctx.npos += 1
+            if ctx.npos % 2:      # the documented signature is load_sig(ffp, m=1.0): every other call gives the factor positionally
+                site, pos = 'load_sig[m positional]', (m,)
+            else:
+                kw['m'] = m
     else:
         site, fn = 'load_asig[load_label=%s,m]' % bool(want_label), loader.load_asig
-        if want_label is not None:
-            kw['load_label'] = want_label
-        if m is not None:
-            kw['m'] = m
+        ctx.npos += 1
+        if want_label is not None and m is not None and ctx.npos % 3 == 0:     # load_asig(ffp, load_label=False, m=1.0) positionally
+            site, pos = 'load_asig[load_label=%s,m positional]' % bool(want_label), (want_label, m)
+        else:
+            if want_label is not None:
+                kw['load_label'] = want_label
+            if m is not None:
+                kw['m'] = m
     args = {'file_text': text, 'saved_from': None if not saved else {'label': label, 'dt': dt, 'values': [float(x) for x in vals]}, 'call': site, 'kwargs': dict(kw)}
-    r = guarded(fn, ffp, **kw)
+    if pos:
+        args['positional_args_after_ffp'] = list(pos)
+    r = guarded(fn, ffp, *pos, **kw)
     if isinstance(r, ImplError):
         # an exception on a valid file is a violation; keep the smallest witness per entry point
         cur = ctx.errs.get(site)
@@ -431,7 +465,8 @@ def run(rep, rng, tier):
         # fixed corpus first: the witnesses of the defects repaired in /repo (dt >= 1, one-value files) and format edge cases
         corpus = [('m1', 1.5, [1.0, -2.0, 3.5]), ('m1', 12.25, [0.5]), ('one value', 0.01, [7.25]), ('m1', 100.0, [0.0078125, -0.0078125, 0.0234375]),
                   ('neg zero', 0.01, [-0.0, 0.0, -4e-7, 4e-7, -5e-7, 5e-7, -5.000001e-7]), ('big', 0.02, [1e15 + 0.25, -123456789.1234565, 2.0 ** 60, 1e-9]),
-                  ('', 2, [3]), ('tie dt', 2.0 ** -5, [1, 2, 3]), ('tie dt up', 3 * 2.0 ** -5, [1.0]), ('carry', 0.99995, [0.9999995, 9.9999995, -99.9999995, 0.99999949])]
+                  ('', 2, [3]), ('tie dt', 2.0 ** -5, [1, 2, 3]), ('tie dt up', 3 * 2.0 ** -5, [1.0]), ('carry', 0.99995, [0.9999995, 9.9999995, -99.9999995, 0.99999949]),
+                  ('D\u00fczce 1999 - G\u00f6lc\u00fck', 0.005, [0.0, 0.123456, -1.5, 2.25, -0.000321, 3.0])]
         inputs = [(lab, dt, np.array(v, dtype=float if not all(isinstance(x, int) for x in v) else int), 'corpus') for lab, dt, v in corpus]
         # record lengths that are exact multiples of 1000 (a writer that streams the record in blocks has its boundary there):
         # a short pattern repeated, so that the case stays cheap; one of them with small integers stored as int
@@ -513,7 +548,7 @@ def report(rep, cases):
 
 def finish(rep):
     return rep.finish(rule=RULE, trusted=TRUSTED,
-                      assumptions=['text = bytes (printable ASCII labels, no line breaks inside the label)', 'values and dt finite; |value| < 2^1024',
+                      assumptions=['text = bytes (printable ASCII labels, or non-ASCII characters as their UTF-8 bytes; no line breaks inside the label)', 'values and dt finite; |value| < 2^1024',
                                    'exact rational arithmetic for the decimal expansion; binary64 rounding modelled by round_b64 (no overflow)'])
 
 
@@ -540,7 +575,7 @@ def replay_call(replay):
         with open(ffp, 'w', newline='') as f:
             f.write(a['file_text'])
         fn = getattr(loader, a['call'].split('[')[0])
-        r = guarded(fn, ffp, **a.get('kwargs', {}))
+        r = guarded(fn, ffp, *a.get('positional_args_after_ffp', []), **a.get('kwargs', {}))
         if isinstance(r, ImplError):
             return {'impl_error': str(r)}
         if isinstance(r, tuple):
